@@ -70,12 +70,20 @@ class TLCResult:
         self.depth = int(m.group(1)) if m else 0
 
     def printed(self, tag: str):
-        """Lines printed by PrintT(<<"TAG", ...>>) as python lists."""
+        """Values printed by PrintT(<<"TAG", ...>>) as python lists (TLC wraps long values over lines)."""
         res = []
-        for line in self.out.splitlines():
-            line = line.strip()
-            if line.startswith('<<"' + tag + '"'):
-                res.append(parse_tla(line))
+        lines = self.out.splitlines()
+        i = 0
+        start = re.compile(r'^<<\s*"' + re.escape(tag) + '"')
+        while i < len(lines):
+            line = lines[i].strip()
+            if start.match(line):
+                buf = line
+                while buf.count("<<") > buf.count(">>") and i + 1 < len(lines):
+                    i += 1
+                    buf += " " + lines[i].strip()
+                res.append(parse_tla(buf))
+            i += 1
         return res
 
     def coverage(self):
